@@ -3,5 +3,6 @@ CONSTANTS
   Polls <- R3
   Pubs <- U2
   Fix = TRUE
+  FixHB = TRUE
 PROPERTIES TimedOutReturns WaitingIsServed
 CHECK_DEADLOCK FALSE
